@@ -458,6 +458,15 @@ class Gen:
             self.meta["features"].append("same_basename_in_subdir")
             first = sorted(files)[0]
             files["sub/" + first] = self.module("s0")
+        if len(files) >= 2 and not any("/" in n for n in files) and r.chance(0.3):
+            # the second file imports a class of the first and reads the same never-set attribute
+            self.meta["features"].append("cross_file_class_attribute_read")
+            a, b = sorted(files)[:2]
+            if "\r\n" not in files[a] and "\r\n" not in files[b] and "\t" not in files[a] and "\t" not in files[b]:
+                tail_a = "" if files[a].endswith("\n") else "\n"
+                tail_b = "" if files[b].endswith("\n") else "\n"
+                files[a] += tail_a + "\n\nclass Shared:\n    label = \"widget\"\n\n    def describe(self) -> object:\n        return self.colour\n"
+                files[b] += tail_b + "\n\nfrom %s import Shared\n\n\ndef read_shared(w: Shared) -> object:\n    return [w.colour, w.label]\n" % a[:-3]
         enable = sorted({c for a in self.meta["atoms"] if a in ATOMS for c in ATOMS[a].get("enable", [])} | set(self.meta.pop("module_enable", set())))
         if "unused_ignore" in enable and "module:class_attr_never_set" in self.meta["atoms"] and not with_known:
             # recorded defect C16-K6 (late attribute-checker diagnostics vs unused_ignore): keep the
